@@ -154,13 +154,24 @@ def dispatch_rule(facts):
     return out
 
 
+def _hash_fn_cands(fns, name):
+    """the published hash function `name` (`fn` or `Class::fn`), wherever it is declared (a free function made a static member
+    keeps its identity)"""
+    simple = name.split("::")[-1]
+    cls = name.split("::")[0] if "::" in name else None
+    old = [f for f in fns.values() if f["qname"].split("<")[0].endswith(name) or f["qname"] == name]
+    if old:
+        return old
+    return [f for f in sorted(fns.values(), key=lambda f: f["pat"]) if f["name"] == simple and f.get("body") is not None and (cls is None or short(f.get("rect") or "").endswith(cls))]
+
+
 def hash_constants_rule(facts):
     """integer literals of the hash functions equal the published definitions"""
     sp = spec()["hash_literals"]
     fns = functions_by(facts)
     out = []
     for name, want in sorted(sp.items()):
-        cands = [f for f in fns.values() if f["qname"].split("<")[0].endswith(name) or f["qname"] == name]
+        cands = _hash_fn_cands(fns, name)
         key = "hash:" + name
         if not cands:
             out.append(ob("layout.hash", key, "", "unrecognised", "function %s not found" % name, ""))
@@ -190,9 +201,9 @@ def hash_literals(fn):
     # shifts by a constant (covers shifts by 1, which the literal list skips) and evaluated named constants
     sh = []
     walk(fn["body"], lambda n: sh.append("%s%s" % (n["op"], strip(n["r"])["v"])) if n.get("k") == "Bin" and n.get("op") in ("<<", ">>") and "v" in strip(n["r"]) else None)
-    named = []
-    walk(fn["body"], lambda n: named.append("%s=%s" % (n.get("q", n.get("n", "")).split("::")[-1], n["v"])) if n.get("k") in ("Ref", "Member") and "v" in n and (n.get("dk") in ("global", "enum") or n.get("isstatic")) else None)
-    return sorted(lits) + sorted(sh) + sorted(named)
+    # a named constant reads as its value (naming a literal, or renaming the constant, changes nothing)
+    walk(fn["body"], lambda n: lits.append(int(n["v"]) % (1 << 64)) if n.get("k") in ("Ref", "Member") and isinstance(n.get("v"), int) and not isinstance(n.get("v"), bool) and n["v"] not in (0, 1) and (n.get("dk") in ("global", "enum") or n.get("isstatic")) else None)
+    return sorted(lits) + sorted(sh)
 
 
 def _legacy_empty(expr, theta_arg, sa, literals):
@@ -315,7 +326,7 @@ def ast_digest(fn):
                 if k in ("Call",) and n.get("cname"):
                     t += ":" + n["cname"]
                 if k in ("Ref", "Member") and "v" in n and (n.get("dk") in ("global", "enum") or n.get("isstatic")):
-                    t += "=%s" % n["v"]
+                    t = "Int:%s" % (n["v"] % (1 << 64) if isinstance(n["v"], int) and not isinstance(n["v"], bool) else n["v"])      # a named constant reads as the literal it stands for
                 if k == "Cast" and not n.get("impl"):
                     t += ":" + str(n.get("t"))
                 inner = n.get("e")
@@ -359,7 +370,7 @@ def hash_digest_rule(facts):
     fns = functions_by(facts)
     out = []
     for name, want in sorted(sp.items()):
-        cands = [f for f in fns.values() if f["qname"].split("<")[0].endswith(name)]
+        cands = _hash_fn_cands(fns, name)
         key = "hash-structure:" + name
         if not cands:
             out.append(ob("layout.hash", key, "", "unrecognised", "function %s not found / not instantiated" % name, ""))
